@@ -74,6 +74,9 @@ func VPH_commitStructured() {
 	var parents []string
 	for i := 0; i < nParents; i++ {
 		h := vpHexID(byte(0x30 + i))
+		if i > 0 && vp_Choice("repeat-parent", 2) == 1 {
+			h = parents[0] // git keeps a parent that is listed twice (rev-list --parents shows both)
+		}
 		parents = append(parents, h)
 		sb.WriteString("parent " + h + "\n")
 	}
